@@ -9,6 +9,7 @@ CONSTANTS FltIds = {f1, f2, f3}
  WriteDirtyThrough = TRUE
  QauKeepsDirty = TRUE
  RoCheckSetOps = TRUE
+ RemarkWhenDirty = TRUE
 SYMMETRY Sym
 INVARIANT CountOK CInv
 CONSTRAINT MCBound
